@@ -34,11 +34,16 @@ _worker_mod = {}
 
 
 def _init_worker(mod_name):
+    # N.B. an exception escaping a Pool initializer makes the pool respawn workers forever
     os.environ.setdefault("PYTHONHASHSEED", "0")
-    mod = importlib.import_module(mod_name)
-    _worker_mod["mod"] = mod
-    if hasattr(mod, "warmup"):
-        mod.warmup()
+    try:
+        mod = importlib.import_module(mod_name)
+        _worker_mod["mod"] = mod
+        if hasattr(mod, "warmup"):
+            mod.warmup()
+    except BaseException as ex:
+        _worker_mod["init_error"] = "%s: %s\n%s" % (type(ex).__name__, ex, traceback.format_exc())
+        return
     import gc
     gc.collect()
     gc.freeze()  # per-execution gc.collect() then only walks objects created by that execution
@@ -46,6 +51,8 @@ def _init_worker(mod_name):
 
 def _run_chunk(args):
     chunk, tier = args
+    if "init_error" in _worker_mod:
+        return [{"harness_error": "worker initialisation failed: " + _worker_mod["init_error"], "bad_item": None}]
     mod = _worker_mod["mod"]
     out = []
     for item in chunk:
